@@ -2,6 +2,7 @@
 // @also C09
 // @engine B
 // @entry vfh_C05_fpunchf
+// @shared_state_watch
 // @tier Q
 // @opts max_steps=40000000
 // @reach fpunchf.done
